@@ -18,4 +18,7 @@ int toggle(bool flag, int n = 1, int m = 2);
 int divide(int num, int *rem, int den = 10, bool neg = false);
 void fill2(int nrow, int ncol, double *out);
 int *getRow(int n);
+long isum(const int *v, int n);
+int total(const int *v, int n);
+double total(const double *v, int n);
 #endif
